@@ -20,8 +20,10 @@ import (
 //     that key. An identity block naming somebody else's id therefore does not
 //     verify.
 //
-// Identities of other types are left to their provider's VerifyIdentity.
-func VerifyEntryIdentity(entry logac.LogEntry) error {
+// An identity of another type than the local provider's cannot be verified by
+// that provider and is refused; identities of the provider's own (other) type
+// are left to its VerifyIdentity.
+func VerifyEntryIdentity(entry logac.LogEntry, p identityprovider.Interface) error {
 	if entry == nil {
 		return fmt.Errorf("entry is not defined")
 	}
@@ -35,6 +37,10 @@ func VerifyEntryIdentity(entry logac.LogEntry) error {
 		if !bytes.Equal(signed.GetKey(), identity.PublicKey) {
 			return fmt.Errorf("entry is not signed with the key of its identity")
 		}
+	}
+
+	if p != nil && identity.Type != p.GetType() {
+		return fmt.Errorf("identity of type %q cannot be verified by the %q identity provider", identity.Type, p.GetType())
 	}
 
 	if identity.Type != "orbitdb" {
